@@ -86,6 +86,11 @@ CHECKS = {
     text="Kernel-checked: for EVERY list of symbols (any order, any lifetimes) assign_colors gives different colours to symbols with overlapping lifetimes (stable sort, expiry and free-list reuse modelled as written); for EVERY call graph the scope ordering, when it succeeds, places every scope after its callers, and any call cycle (recursion) makes it fail; a scope only receives registers among r0..r15 that its callers have not blocked, and a colour beyond the available registers is the out-of-registers error. The colouring model is compared with the real assign_colors on random interval sets; on every compile the exported scope order, available lists, colours and map are re-derived, a liveness-based interference check runs on the pre-allocation instruction stream (CFG with call/return edges), and register-pressure programs (3..20 simultaneously live variables, loop-carried variables, values live across call chains) are executed against the source.",
     note="NOT proved: that the line-interval lifetimes computed from the source cover true liveness (types.py lifetime); this link is tested by the interference check and the pressure runs only. AllocCheck with a soundness theorem (T2) is not built; the interference check is harness code. Trusted: Coq kernel; RegAlloc.v; hook exports.",
     design="4 C04"),
+ "C13": dict(
+    category="translation_validation", technique="one source tree rendered as a split (main + library module) and as a merged single-file program; both compiled and executed on the Coq machine against the Coq source semantics and against each other; kernel-checked comparison lemmas",
+    text="Each generated program has 1-3 library functions, 1-2 library globals (written through `global`), a never-called library function and an `if __name__ == \"__main__\"` block, imported with or without alias, with main-level names that collide with library-level names. The split rendering and the merged rendering (module-name prefix) are compiled under 2-5 option sets; each output is executed against the source semantics (same tree for both) and the two outputs against each other; the never-called function and the __main__ block must contribute no instruction. Kernel-checked: verdict 0 of both comparisons implies event-wise agreement; traces are monotone in fuel. No theorem about the compiler's handling of modules: bounded, sampled validation.",
+    note="Trusted: Coq kernel; Src/Sem.v, Machine.v; the harness's two printers. Open known findings: consequences of the fall-through and tail-call defects.",
+    design="4 C13"),
 }
 
 NOT_YET = {}
